@@ -96,17 +96,22 @@ variable {n : ℕ} {P : Problem α} {pr : Params α} {ψ : List α → α} {grad
   {h : List α → α} {dom : List α → Prop}
 
 /-- The backtracking loop keeps the step consistent, never increases `γ`, and — unless the model
-    fuel ran out — ends with `L ≥ L_max` or the generated QUB test passed. -/
-theorem qubLoop_stepped (S : Spec n P ψ grad h dom) (f : ℕ) (c : Iterate α) (t b : ℕ)
-    (x g : List α) (hc : Stepped n P pr ψ h x g c) :
-    Stepped n P pr ψ h x g (qubLoop P pr f c t b).1 ∧
-    (qubLoop P pr f c t b).1.gamma ≤ c.gamma ∧
-    ((qubLoop P pr f c t b).2.2.2 = false →
-      (decide ((qubLoop P pr f c t b).1.L < pr.Lmax) && qubViolated pr (qubLoop P pr f c t b).1) = false) := by
+    fuel ran out or the loop was left through its stop poll (the flag is visible at the tick it ends
+    at) — ends with `L ≥ L_max` or the generated QUB test passed. -/
+theorem qubLoop_stepped (S : Spec n P ψ grad h dom) (stop : ℕ → Bool) (f : ℕ) (c : Iterate α)
+    (t b : ℕ) (x g : List α) (hc : Stepped n P pr ψ h x g c) :
+    Stepped n P pr ψ h x g (qubLoop P pr stop f c t b).1 ∧
+    (qubLoop P pr stop f c t b).1.gamma ≤ c.gamma ∧
+    ((qubLoop P pr stop f c t b).2.2.2 = false → stop (qubLoop P pr stop f c t b).2.1 = false →
+      (decide ((qubLoop P pr stop f c t b).1.L < pr.Lmax) && qubViolated pr (qubLoop P pr stop f c t b).1) = false) := by
   induction f generalizing c t b with
   | zero => exact ⟨hc, le_refl _, fun hf => by simp [qubLoop] at hf⟩
   | succ f ih =>
     unfold qubLoop
+    by_cases hstop : stop t = true
+    · simp only [hstop, if_true]
+      exact ⟨hc, le_refl _, fun _ hs => absurd hs (by decide)⟩
+    simp only [hstop, Bool.false_eq_true, if_false]
     by_cases hcond : (decide (c.L < pr.Lmax) && qubViolated pr c) = true
     · simp only [hcond, if_true]
       have hlt : c.L < pr.Lmax := by
@@ -134,7 +139,7 @@ theorem qubLoop_stepped (S : Spec n P ψ grad h dom) (f : ℕ) (c : Iterate α) 
     · have hcf : (decide (c.L < pr.Lmax) && qubViolated pr c) = false := by
         simpa using hcond
       rw [if_neg (by rw [hcf]; decide)]
-      exact ⟨hc, le_refl _, fun _ => hcf⟩
+      exact ⟨hc, le_refl _, fun _ _ => hcf⟩
 
 
 theorem stepped_xhat_len (S : Spec n P ψ grad h dom) {x : List α} (hx : x.length = n)
@@ -261,16 +266,27 @@ theorem withGradHat_stepped {x g : List α} {c : Iterate α} (hc : Stepped n P p
   · exact stepped_evalGradPsiHat hc
   · exact hc
 
+/-- The tick at which the backtracking loop of the pass starting in `s` ends (= the tick of its last
+    stop poll). -/
+def qubEndTick (P : Problem α) (pr : Params α) (stop : ℕ → Bool) (s : St α) : ℕ :=
+  (qubLoop P pr stop pr.qubFuel (firstStep P pr s) (firstTick pr s) s.backtracks).2.1
+
+theorem qubEndTick_le (P : Problem α) (pr : Params α) (stop : ℕ → Bool) (s : St α) :
+    qubEndTick P pr stop s ≤ (proxStage P pr stop s).tick := by
+  unfold qubEndTick proxStage; simp only []; omega
+
 /-- The prox / backtracking stage: consistent accepted step from `(xₖ, ∇ψ(xₖ))`, `γ` not
-    increased, `prev_x̂` = the previous `x̂`. -/
-theorem proxStage_stepped (S : Spec n P ψ grad h dom) (s : St α) (hs : TopCons n pr ψ grad s) :
-    Stepped n P pr ψ h s.curr.x (grad s.curr.x) (proxStage P pr s).curr ∧
-    (proxStage P pr s).curr.gamma ≤ s.curr.gamma ∧
-    ((proxStage P pr s).fuelOut = false →
-      (decide ((proxStage P pr s).curr.L < pr.Lmax) && qubViolated pr (proxStage P pr s).curr) = false) ∧
-    (proxStage P pr s).prev = s.curr.xhat ∧ (proxStage P pr s).t = s.t ∧ (proxStage P pr s).k = s.k := by
+    increased, `prev_x̂` = the previous `x̂`; the step is *accepted* (generated QUB test passed or
+    `L ≥ L_max`) unless the backtracking loop was left through its stop poll. -/
+theorem proxStage_stepped (S : Spec n P ψ grad h dom) (stop : ℕ → Bool) (s : St α)
+    (hs : TopCons n pr ψ grad s) :
+    Stepped n P pr ψ h s.curr.x (grad s.curr.x) (proxStage P pr stop s).curr ∧
+    (proxStage P pr stop s).curr.gamma ≤ s.curr.gamma ∧
+    ((proxStage P pr stop s).fuelOut = false → stop (qubEndTick P pr stop s) = false →
+      (decide ((proxStage P pr stop s).curr.L < pr.Lmax) && qubViolated pr (proxStage P pr stop s).curr) = false) ∧
+    (proxStage P pr stop s).prev = s.curr.xhat ∧ (proxStage P pr stop s).t = s.t ∧ (proxStage P pr stop s).k = s.k := by
   have h3 := firstStep_stepped S s hs
-  have hq := qubLoop_stepped (pr := pr) S pr.qubFuel _ (firstTick pr s) s.backtracks _ _ h3
+  have hq := qubLoop_stepped (pr := pr) S stop pr.qubFuel _ (firstTick pr s) s.backtracks _ _ h3
   have hγ1 : (firstStep P pr s).gamma = s.curr.gamma := by
     unfold firstStep; simp only []; split_ifs <;> rfl
   unfold proxStage
@@ -278,13 +294,13 @@ theorem proxStage_stepped (S : Spec n P ψ grad h dom) (s : St α) (hs : TopCons
   refine ⟨withGradHat_stepped hq.1, ?_, ?_, by first | rfl | trivial, by first | rfl | trivial,
     by first | rfl | trivial⟩
   · rw [(withGradHat_fields _).1, ← hγ1]; exact hq.2.1
-  · intro hfo
-    have hb : (qubLoop P pr pr.qubFuel (firstStep P pr s) (firstTick pr s) s.backtracks).2.2.2 = false := by
-      cases hb : (qubLoop P pr pr.qubFuel (firstStep P pr s) (firstTick pr s) s.backtracks).2.2.2
+  · intro hfo hns
+    have hb : (qubLoop P pr stop pr.qubFuel (firstStep P pr s) (firstTick pr s) s.backtracks).2.2.2 = false := by
+      cases hb : (qubLoop P pr stop pr.qubFuel (firstStep P pr s) (firstTick pr s) s.backtracks).2.2.2
       · rfl
       · rw [hb] at hfo; simp at hfo
     rw [(withGradHat_fields _).2.1, (withGradHat_fields _).2.2]
-    exact hq.2.2 hb
+    exact hq.2.2 hb hns
 
 end
 
@@ -328,19 +344,20 @@ variable {xs : List α} {Fs : α}
     stage of a pass, `postQ ≤ preQ + 2γₖtₖ²·marginₖ`; moreover the new `x̂` is in `dom h`, has
     length `n` and `F(x̂ₖ) ≥ F⋆`. -/
 theorem proxStage_post (S : Spec n P ψ grad h dom) (hp : ParamOK pr) (hQ : QubMax n ψ grad pr.Lmax)
-    (T : Target n ψ h dom xs Fs) (s : St α) (R : α) (hs : TopInv n pr ψ grad h dom xs Fs s R)
-    (hfo : (proxStage P pr s).fuelOut = false) :
-    postQ n ψ h xs Fs (proxStage P pr s)
-        ≤ R + 2 * (proxStage P pr s).curr.gamma * s.t ^ 2 * marginQ pr (ψ s.curr.x) ∧
-    0 ≤ ψ (proxStage P pr s).curr.xhat + h (proxStage P pr s).curr.xhat - Fs ∧
-    dom (proxStage P pr s).curr.xhat ∧ (proxStage P pr s).curr.xhat.length = n := by
-  obtain ⟨hst, hγle, hacc, hprev, ht, hk⟩ := proxStage_stepped (pr := pr) S s hs.cons
-  have hacc := hacc hfo
+    (T : Target n ψ h dom xs Fs) (stop : ℕ → Bool) (s : St α) (R : α)
+    (hs : TopInv n pr ψ grad h dom xs Fs s R)
+    (hfo : (proxStage P pr stop s).fuelOut = false) (hns : stop (qubEndTick P pr stop s) = false) :
+    postQ n ψ h xs Fs (proxStage P pr stop s)
+        ≤ R + 2 * (proxStage P pr stop s).curr.gamma * s.t ^ 2 * marginQ pr (ψ s.curr.x) ∧
+    0 ≤ ψ (proxStage P pr stop s).curr.xhat + h (proxStage P pr stop s).curr.xhat - Fs ∧
+    dom (proxStage P pr stop s).curr.xhat ∧ (proxStage P pr stop s).curr.xhat.length = n := by
+  obtain ⟨hst, hγle, hacc, hprev, ht, hk⟩ := proxStage_stepped (pr := pr) S stop s hs.cons
+  have hacc := hacc hfo hns
   have hxl := hs.cons.xlen
   have hxhl := stepped_xhat_len S hxl hst
-  have hdom : dom (proxStage P pr s).curr.xhat := by
+  have hdom : dom (proxStage P pr stop s).curr.xhat := by
     rw [hst.hxhat]; exact S.prox_dom _ _ _ hxl (S.grad_len _ hxl)
-  have hv' : 0 ≤ ψ (proxStage P pr s).curr.xhat + h (proxStage P pr s).curr.xhat - Fs := by
+  have hv' : 0 ≤ ψ (proxStage P pr stop s).curr.xhat + h (proxStage P pr stop s).curr.xhat - Fs := by
     have := T.Fs_min _ hdom hxhl; linarith
   refine ⟨?_, hv', hdom, hxhl⟩
   have h3s := stepped_three_point S hp hQ hxl hst hacc xs T.xs_dom T.xs_len
@@ -352,7 +369,7 @@ theorem proxStage_post (S : Spec n P ψ grad h dom) (hp : ParamOK pr) (hQ : QubM
   rw [hprev, ht]
   have hpre := hs.hQ
   unfold preQ at hpre
-  have hmono : 2 * (proxStage P pr s).curr.gamma * (s.t ^ 2 - s.t) * (ψ s.curr.xhat + h s.curr.xhat - Fs)
+  have hmono : 2 * (proxStage P pr stop s).curr.gamma * (s.t ^ 2 - s.t) * (ψ s.curr.xhat + h s.curr.xhat - Fs)
       ≤ 2 * s.curr.gamma * (s.t ^ 2 - s.t) * (ψ s.curr.xhat + h s.curr.xhat - Fs) := by
     have := mul_le_mul_of_nonneg_right hγle hs.hv
     nlinarith [this]
@@ -452,8 +469,8 @@ theorem advance_cbs (s : St α) (e : α) : (advance P pr s e).cbs = mkCb s .Busy
 theorem exitBlock_callbacks (s : St α) (e : α) (st : SolverStatus) (x0 y Sig errz0 : List α) :
     (exitBlock P pr s e st x0 y Sig errz0).callbacks = (mkCb s st e :: s.cbs).reverse := rfl
 
-theorem proxStage_fuelOut_mono (s : St α) (hf : s.fuelOut = true) :
-    (proxStage P pr s).fuelOut = true := by
+theorem proxStage_fuelOut_mono (stop : ℕ → Bool) (s : St α) (hf : s.fuelOut = true) :
+    (proxStage P pr stop s).fuelOut = true := by
   unfold proxStage; simp [hf]
 
 theorem mainLoop_fuelOut_mono (stop : Nat → Bool) (oot : Bool) (x0 y Sig errz0 : List α) (fuel : ℕ)
@@ -464,7 +481,7 @@ theorem mainLoop_fuelOut_mono (stop : Nat → Bool) (oot : Bool) (x0 y Sig errz0
   | succ f ih =>
     unfold mainLoop
     simp only []
-    have h1 := proxStage_fuelOut_mono (P := P) (pr := pr) s hf
+    have h1 := proxStage_fuelOut_mono (P := P) (pr := pr) stop s hf
     split_ifs
     · rw [(exitBlock_fields P pr _ _ _ x0 y Sig errz0).2.2.2.2.1, (headStep_curr P pr stop oot _).2.2.2.1]
       exact h1
@@ -473,62 +490,115 @@ theorem mainLoop_fuelOut_mono (stop : Nat → Bool) (oot : Bool) (x0 y Sig errz0
       simp only []
       rw [(headStep_curr P pr stop oot _).2.2.2.1]; exact h1
 
-/-- **Generic induction over the main loop**: a state invariant `Inv` (at the top of a pass) and a
-    property `Q` of the callback list (newest first) that are re-established by every pass hold
-    for the callbacks of the whole solve. -/
-theorem mainLoop_ind (stop : Nat → Bool) (oot : Bool) (x0 y Sig errz0 : List α)
+/-- The stop flag is never lowered during a solve. -/
+def StopMono (stop : ℕ → Bool) : Prop := ∀ a b, a ≤ b → stop a = true → stop b = true
+
+/-- A `Busy` head saw no stop request. -/
+theorem headStep_busy_no_stop (stop : ℕ → Bool) (oot : Bool) (s : St α)
+    (hb : (headStep P pr stop oot s).2.2 = .Busy) : stop (headStep P pr stop oot s).1.tick = false := by
+  cases hst : stop (headStep P pr stop oot s).1.tick
+  · rfl
+  · exfalso
+    have e : (headStep P pr stop oot s).2.2 =
+        statusChain pr.tolerance pr.maxIter pr.maxNoProgress s.k (epsOf P pr s.curr)
+          (noProgressUpdate s.noProgress s.k pr.maxNoProgress (s.curr.xhat == s.prev)) oot
+          (stop (headStep P pr stop oot s).1.tick) := by
+      unfold headStep statusOf; simp only []
+    rw [e, hst] at hb
+    unfold statusChain at hb
+    simp only [] at hb
+    split_ifs at hb
+
+/-- The tick of the final loop-head check of a solve: the exit block adds the final callback and, in
+    fixed-step mode without `∇ψ(x̂)`, the late `ψ(x̂)`. -/
+def finalPoll (pr : Params α) (r : Result α) : ℕ :=
+  r.ticks - 1 - (if fixedLip pr && !needGradHat pr then 1 else 0)
+
+theorem finalPoll_exitBlock (s : St α) (e : α) (st : SolverStatus) (x0 y Sig errz0 : List α) :
+    finalPoll pr (exitBlock P pr s e st x0 y Sig errz0) = s.tick := by
+  unfold finalPoll exitBlock
+  simp only []
+  split_ifs <;> omega
+
+theorem headStep_tick_ge (stop : ℕ → Bool) (oot : Bool) (s : St α) :
+    s.tick ≤ (headStep P pr stop oot s).1.tick := by
+  unfold headStep; simp only []; omega
+
+/-- **Generic induction over the main loop** (stop flag never lowered): a state invariant `Inv` (at
+    the top of a pass) and a property `Q` of the callback list (newest first) that are re-established
+    by every pass *whose backtracking loop was not cut short by a stop request* hold for all callbacks
+    but the final one, and for the final one too if no stop request was visible at the final
+    loop-head check (a request visible there may have cut the last backtracking short). -/
+theorem mainLoop_ind (stop : Nat → Bool) (hm : StopMono stop) (oot : Bool) (x0 y Sig errz0 : List α)
     (Inv : St α → Prop) (Q : List (Callback α) → Prop)
-    (hcb : ∀ s, Inv s → (proxStage P pr s).fuelOut = false → Q s.cbs → ∀ st e,
-      Q (mkCb (headStep P pr stop oot (proxStage P pr s)).1 st e :: s.cbs))
-    (hadv : ∀ s, Inv s → (proxStage P pr s).fuelOut = false → Q s.cbs →
-      Inv (advance P pr (headStep P pr stop oot (proxStage P pr s)).1
-        (headStep P pr stop oot (proxStage P pr s)).2.1))
+    (hcb : ∀ s, Inv s → (proxStage P pr stop s).fuelOut = false →
+      stop (qubEndTick P pr stop s) = false → Q s.cbs → ∀ st e,
+      Q (mkCb (headStep P pr stop oot (proxStage P pr stop s)).1 st e :: s.cbs))
+    (hadv : ∀ s, Inv s → (proxStage P pr stop s).fuelOut = false →
+      stop (qubEndTick P pr stop s) = false → Q s.cbs →
+      Inv (advance P pr (headStep P pr stop oot (proxStage P pr stop s)).1
+        (headStep P pr stop oot (proxStage P pr stop s)).2.1))
     (fuel : ℕ) (s : St α) (hk : s.k ≤ pr.maxIter) (hfuel : pr.maxIter + 1 ≤ fuel + s.k)
     (hinv : Inv s) (hq : Q s.cbs)
     (hres : (mainLoop P pr stop oot x0 y Sig errz0 fuel s).fuelOut = false) :
-    Q (mainLoop P pr stop oot x0 y Sig errz0 fuel s).callbacks.reverse := by
+    Q (mainLoop P pr stop oot x0 y Sig errz0 fuel s).callbacks.reverse.tail ∧
+    (stop (finalPoll pr (mainLoop P pr stop oot x0 y Sig errz0 fuel s)) = false →
+      Q (mainLoop P pr stop oot x0 y Sig errz0 fuel s).callbacks.reverse) := by
   induction fuel generalizing s with
   | zero => omega
   | succ f ih =>
     unfold mainLoop at hres ⊢
     simp only [] at hres ⊢
-    have hfo : (proxStage P pr s).fuelOut = false := by
-      cases hb : (proxStage P pr s).fuelOut
+    have hfo : (proxStage P pr stop s).fuelOut = false := by
+      cases hb : (proxStage P pr stop s).fuelOut
       · rfl
       · exfalso
-        have h1 : (headStep P pr stop oot (proxStage P pr s)).1.fuelOut = true := by
+        have h1 : (headStep P pr stop oot (proxStage P pr stop s)).1.fuelOut = true := by
           rw [(headStep_curr P pr stop oot _).2.2.2.1]; exact hb
         split_ifs at hres
         · rw [(exitBlock_fields P pr _ _ _ x0 y Sig errz0).2.2.2.2.1, h1] at hres
           exact absurd hres (by decide)
-        · have h2 : (advance P pr (headStep P pr stop oot (proxStage P pr s)).1
-              (headStep P pr stop oot (proxStage P pr s)).2.1).fuelOut = true := by
+        · have h2 : (advance P pr (headStep P pr stop oot (proxStage P pr stop s)).1
+              (headStep P pr stop oot (proxStage P pr stop s)).2.1).fuelOut = true := by
             unfold advance; simp only []; exact h1
           rw [mainLoop_fuelOut_mono stop oot x0 y Sig errz0 f _ h2] at hres
           exact absurd hres (by decide)
-    have hhc := headStep_curr P pr stop oot (proxStage P pr s)
-    have hQ' := hcb s hinv hfo hq
+    have hhc := headStep_curr P pr stop oot (proxStage P pr stop s)
+    -- no request visible at this head ⇒ none was when the backtracking loop ended
+    have hquiet : stop (headStep P pr stop oot (proxStage P pr stop s)).1.tick = false →
+        stop (qubEndTick P pr stop s) = false := by
+      intro hns
+      cases hq' : stop (qubEndTick P pr stop s)
+      · rfl
+      · have hle : qubEndTick P pr stop s ≤ (headStep P pr stop oot (proxStage P pr stop s)).1.tick :=
+          Nat.le_trans (qubEndTick_le P pr stop s)
+            (headStep_tick_ge (P := P) (pr := pr) stop oot (proxStage P pr stop s))
+        have := hm _ _ hle hq'
+        rw [this] at hns; exact absurd hns (by decide)
     split_ifs at hres ⊢ with hb
-    · rw [exitBlock_callbacks, List.reverse_reverse, hhc.2.2.1, (proxStage_k P pr s).2.1]
-      exact hQ' _ _
-    · have hbusy : (headStep P pr stop oot (proxStage P pr s)).2.2 = .Busy := by
+    · rw [exitBlock_callbacks, List.reverse_reverse, hhc.2.2.1, (proxStage_k P pr stop s).2.1,
+        finalPoll_exitBlock]
+      exact ⟨hq, fun hns => hcb s hinv hfo (hquiet hns) hq _ _⟩
+    · have hbusy : (headStep P pr stop oot (proxStage P pr stop s)).2.2 = .Busy := by
         simpa using hb
+      have hns := hquiet (headStep_busy_no_stop stop oot _ hbusy)
+      have hQ' := hcb s hinv hfo hns hq
       have hkne := headStep_busy_k P pr stop oot _ hbusy
-      rw [(proxStage_k P pr s).1] at hkne
-      apply ih _ _ _ (hadv s hinv hfo hq)
-      · rw [advance_cbs, hhc.2.2.1, (proxStage_k P pr s).2.1]
+      rw [(proxStage_k P pr stop s).1] at hkne
+      apply ih _ _ _ (hadv s hinv hfo hns hq)
+      · rw [advance_cbs, hhc.2.2.1, (proxStage_k P pr stop s).2.1]
         exact hQ' _ _
       · exact hres
-      · rw [(advance_k _ _ _ _).1, hhc.2.1, (proxStage_k P pr s).1]; omega
-      · rw [(advance_k _ _ _ _).1, hhc.2.1, (proxStage_k P pr s).1]; omega
+      · rw [(advance_k _ _ _ _).1, hhc.2.1, (proxStage_k P pr stop s).1]; omega
+      · rw [(advance_k _ _ _ _).1, hhc.2.1, (proxStage_k P pr stop s).1]; omega
 
 /-- consistency of the state handed to `advance` (after the prox stage and the head check) -/
 theorem head_topCons (S : Spec n P ψ grad h dom) (stop : Nat → Bool) (oot : Bool) (s : St α)
     (hcons : TopCons n pr ψ grad s) :
-    TopCons n pr ψ grad (headStep P pr stop oot (proxStage P pr s)).1 := by
-  obtain ⟨hst, _, _, _, _, _⟩ := proxStage_stepped (pr := pr) S s hcons
-  have hhc := headStep_curr P pr stop oot (proxStage P pr s)
-  have hx : (proxStage P pr s).curr.x = s.curr.x := hst.hx
+    TopCons n pr ψ grad (headStep P pr stop oot (proxStage P pr stop s)).1 := by
+  obtain ⟨hst, _, _, _, _, _⟩ := proxStage_stepped (pr := pr) S stop s hcons
+  have hhc := headStep_curr P pr stop oot (proxStage P pr stop s)
+  have hx : (proxStage P pr stop s).curr.x = s.curr.x := hst.hx
   exact { xlen := by rw [hhc.1, hx]; exact hcons.xlen,
           xhlen := by rw [hhc.1]; exact stepped_xhat_len S hcons.xlen hst,
           hg := by rw [hhc.1, hst.hg, hx],
@@ -540,10 +610,10 @@ theorem head_topCons (S : Spec n P ψ grad h dom) (stop : Nat → Bool) (oot : B
     `2γₖtₖ²·marginQ(ψ(xₖ))` -/
 theorem marginSum_cons (S : Spec n P ψ grad h dom) (stop : Nat → Bool) (oot : Bool) (s : St α)
     (hcons : TopCons n pr ψ grad s) (st : SolverStatus) (e : α) :
-    marginSum pr (mkCb (headStep P pr stop oot (proxStage P pr s)).1 st e :: s.cbs)
-      = marginSum pr s.cbs + 2 * (proxStage P pr s).curr.gamma * s.t ^ 2 * marginQ pr (ψ s.curr.x) := by
-  obtain ⟨hst, _, _, _, ht, _⟩ := proxStage_stepped (pr := pr) S s hcons
-  have hhc := headStep_curr P pr stop oot (proxStage P pr s)
+    marginSum pr (mkCb (headStep P pr stop oot (proxStage P pr stop s)).1 st e :: s.cbs)
+      = marginSum pr s.cbs + 2 * (proxStage P pr stop s).curr.gamma * s.t ^ 2 * marginQ pr (ψ s.curr.x) := by
+  obtain ⟨hst, _, _, _, ht, _⟩ := proxStage_stepped (pr := pr) S stop s hcons
+  have hhc := headStep_curr P pr stop oot (proxStage P pr stop s)
   unfold marginSum cbMargin marginQ mkCb
   simp only [List.map_cons, List.sum_cons, hhc.1, hhc.2.2.2.2.1, ht]
   cases hf : fixedLip pr
@@ -551,23 +621,28 @@ theorem marginSum_cons (S : Spec n P ψ grad h dom) (stop : Nat → Bool) (oot :
     rw [hst.hpsix hf]; ring
   · simp only [if_true]; ring
 
-/-- **Main induction**: every callback of the main loop satisfies the rate bound. -/
+/-- **Main induction** (stop flag never lowered): every callback of the main loop but the final one
+    satisfies the rate bound, and so does the final one unless a stop request was visible at the
+    final loop-head check (it may have cut the last backtracking short). -/
 theorem mainLoop_allOK (S : Spec n P ψ grad h dom) (hp : ParamOK pr) (hQ : QubMax n ψ grad pr.Lmax)
     (T : Target n ψ h dom xs Fs) (hsq : LawfulSqrt α) (hacc : pr.disableAcceleration = false)
-    (stop : Nat → Bool) (oot : Bool) (x0 y Sig errz0 : List α) (D : α) (fuel : ℕ) (s : St α)
+    (stop : Nat → Bool) (hm : StopMono stop) (oot : Bool) (x0 y Sig errz0 : List α) (D : α) (fuel : ℕ)
+    (s : St α)
     (hk : s.k ≤ pr.maxIter) (hfuel : pr.maxIter + 1 ≤ fuel + s.k)
     (hinv : TopInv n pr ψ grad h dom xs Fs s (D + marginSum pr s.cbs))
     (hok : AllOK pr ψ h Fs D s.cbs)
     (hres : (mainLoop P pr stop oot x0 y Sig errz0 fuel s).fuelOut = false) :
-    AllOK pr ψ h Fs D (mainLoop P pr stop oot x0 y Sig errz0 fuel s).callbacks.reverse := by
-  refine mainLoop_ind stop oot x0 y Sig errz0
+    AllOK pr ψ h Fs D (mainLoop P pr stop oot x0 y Sig errz0 fuel s).callbacks.reverse.tail ∧
+    (stop (finalPoll pr (mainLoop P pr stop oot x0 y Sig errz0 fuel s)) = false →
+      AllOK pr ψ h Fs D (mainLoop P pr stop oot x0 y Sig errz0 fuel s).callbacks.reverse) := by
+  refine mainLoop_ind stop hm oot x0 y Sig errz0
     (fun s => TopInv n pr ψ grad h dom xs Fs s (D + marginSum pr s.cbs)) (AllOK pr ψ h Fs D)
     ?_ ?_ fuel s hk hfuel hinv hok hres
   · -- the callback of a pass satisfies the rate bound
-    intro s hinv hfo hok st e
-    obtain ⟨hpost, hv', _, _⟩ := proxStage_post S hp hQ T s _ hinv hfo
-    obtain ⟨hst, _, _, _, ht, hks⟩ := proxStage_stepped (pr := pr) S s hinv.cons
-    have hhc := headStep_curr P pr stop oot (proxStage P pr s)
+    intro s hinv hfo hns hok st e
+    obtain ⟨hpost, hv', _, _⟩ := proxStage_post S hp hQ T stop s _ hinv hfo hns
+    obtain ⟨hst, _, _, _, ht, hks⟩ := proxStage_stepped (pr := pr) S stop s hinv.cons
+    have hhc := headStep_curr P pr stop oot (proxStage P pr stop s)
     refine ⟨?_, hok⟩
     rw [marginSum_cons S stop oot s hinv.cons]
     unfold Rate mkCb
@@ -576,19 +651,19 @@ theorem mainLoop_allOK (S : Spec n P ψ grad h dom) (hp : ParamOK pr) (hQ : QubM
     rw [ht] at hpost
     exact rate_of_post hst.hγ hinv.htk hv' ((isIP_ipN n).nonneg _) (by linarith)
   · -- extrapolation re-establishes the invariant
-    intro s hinv hfo _
-    obtain ⟨hpost, hv', hdom', _⟩ := proxStage_post S hp hQ T s _ hinv hfo
-    obtain ⟨_, _, _, hprev, ht, hks⟩ := proxStage_stepped (pr := pr) S s hinv.cons
-    have hhc := headStep_curr P pr stop oot (proxStage P pr s)
+    intro s hinv hfo hns _
+    obtain ⟨hpost, hv', hdom', _⟩ := proxStage_post S hp hQ T stop s _ hinv hfo hns
+    obtain ⟨_, _, _, hprev, ht, hks⟩ := proxStage_stepped (pr := pr) S stop s hinv.cons
+    have hhc := headStep_curr P pr stop oot (proxStage P pr stop s)
     refine advance_top (xs := xs) (Fs := Fs) S hsq hacc _ _ _ (head_topCons S stop oot s hinv.cons)
       (by rw [hhc.2.2.2.2.1, ht]; exact hinv.ht)
       (by rw [hhc.2.2.2.2.1, hhc.2.1, ht, hks]; exact hinv.htk)
       (by rw [hhc.2.2.2.2.2, hprev]; exact hinv.cons.xhlen)
       (by rw [hhc.1]; exact hdom') (by rw [hhc.1]; exact hv') ?_
-    have : postQ n ψ h xs Fs (headStep P pr stop oot (proxStage P pr s)).1
-        = postQ n ψ h xs Fs (proxStage P pr s) := by
+    have : postQ n ψ h xs Fs (headStep P pr stop oot (proxStage P pr stop s)).1
+        = postQ n ψ h xs Fs (proxStage P pr stop s) := by
       unfold postQ; rw [hhc.1, hhc.2.2.2.2.1, hhc.2.2.2.2.2]
-    rw [this, advance_cbs, hhc.2.2.1, (proxStage_k P pr s).2.1, marginSum_cons S stop oot s hinv.cons]
+    rw [this, advance_cbs, hhc.2.2.1, (proxStage_k P pr stop s).2.1, marginSum_cons S stop oot s hinv.cons]
     linarith
 
 /-! ### Initial state -/
@@ -683,28 +758,29 @@ structure TopInvPg (n : ℕ) (pr : Params α) (ψ : List α → α) (grad : List
 /-- One pass with acceleration disabled: `2γₖ(k+1)(F(x̂ₖ)−F⋆) + ‖x̂ₖ−x⋆‖²` grows by at most the
     margin, and `F(x̂ₖ) ≤ F(x̂ₖ₋₁) + marginₖ`. -/
 theorem proxStage_postPg (S : Spec n P ψ grad h dom) (hp : ParamOK pr) (hQ : QubMax n ψ grad pr.Lmax)
-    (T : Target n ψ h dom xs Fs) (s : St α) (R : α) (hs : TopInvPg n pr ψ grad h dom xs Fs s R)
-    (hfo : (proxStage P pr s).fuelOut = false) :
-    2 * (proxStage P pr s).curr.gamma * ((s.k : α) + 1)
-          * (ψ (proxStage P pr s).curr.xhat + h (proxStage P pr s).curr.xhat - Fs)
-        + ipN n (toFn (proxStage P pr s).curr.xhat - toFn xs) (toFn (proxStage P pr s).curr.xhat - toFn xs)
-      ≤ R + 2 * (proxStage P pr s).curr.gamma * ((s.k : α) + 1) * marginQ pr (ψ s.curr.x) ∧
-    0 ≤ ψ (proxStage P pr s).curr.xhat + h (proxStage P pr s).curr.xhat - Fs ∧
-    dom (proxStage P pr s).curr.xhat ∧ (proxStage P pr s).curr.xhat.length = n ∧
-    (s.k ≠ 0 → ψ (proxStage P pr s).curr.xhat + h (proxStage P pr s).curr.xhat
+    (T : Target n ψ h dom xs Fs) (stop : ℕ → Bool) (s : St α) (R : α)
+    (hs : TopInvPg n pr ψ grad h dom xs Fs s R)
+    (hfo : (proxStage P pr stop s).fuelOut = false) (hns : stop (qubEndTick P pr stop s) = false) :
+    2 * (proxStage P pr stop s).curr.gamma * ((s.k : α) + 1)
+          * (ψ (proxStage P pr stop s).curr.xhat + h (proxStage P pr stop s).curr.xhat - Fs)
+        + ipN n (toFn (proxStage P pr stop s).curr.xhat - toFn xs) (toFn (proxStage P pr stop s).curr.xhat - toFn xs)
+      ≤ R + 2 * (proxStage P pr stop s).curr.gamma * ((s.k : α) + 1) * marginQ pr (ψ s.curr.x) ∧
+    0 ≤ ψ (proxStage P pr stop s).curr.xhat + h (proxStage P pr stop s).curr.xhat - Fs ∧
+    dom (proxStage P pr stop s).curr.xhat ∧ (proxStage P pr stop s).curr.xhat.length = n ∧
+    (s.k ≠ 0 → ψ (proxStage P pr stop s).curr.xhat + h (proxStage P pr stop s).curr.xhat
         ≤ ψ s.curr.xhat + h s.curr.xhat + marginQ pr (ψ s.curr.x)) := by
-  obtain ⟨hst, hγle, hacc, _, _, _⟩ := proxStage_stepped (pr := pr) S s hs.cons
-  have hacc := hacc hfo
+  obtain ⟨hst, hγle, hacc, _, _, _⟩ := proxStage_stepped (pr := pr) S stop s hs.cons
+  have hacc := hacc hfo hns
   have hxl := hs.cons.xlen
   have hxhl := stepped_xhat_len S hxl hst
-  have hdom : dom (proxStage P pr s).curr.xhat := by
+  have hdom : dom (proxStage P pr stop s).curr.xhat := by
     rw [hst.hxhat]; exact S.prox_dom _ _ _ hxl (S.grad_len _ hxl)
-  have hv' : 0 ≤ ψ (proxStage P pr s).curr.xhat + h (proxStage P pr s).curr.xhat - Fs := by
+  have hv' : 0 ≤ ψ (proxStage P pr stop s).curr.xhat + h (proxStage P pr stop s).curr.xhat - Fs := by
     have := T.Fs_min _ hdom hxhl; linarith
   have h3s := stepped_three_point S hp hQ hxl hst hacc xs T.xs_dom T.xs_len
   rw [← T.Fs_eq] at h3s
   have hb := lyapunov_base (isIP_ipN n) h3s
-  have hmono : s.k ≠ 0 → ψ (proxStage P pr s).curr.xhat + h (proxStage P pr s).curr.xhat
+  have hmono : s.k ≠ 0 → ψ (proxStage P pr stop s).curr.xhat + h (proxStage P pr stop s).curr.xhat
       ≤ ψ s.curr.xhat + h s.curr.xhat + marginQ pr (ψ s.curr.x) := by
     intro hk
     obtain ⟨hxeq, hxd⟩ := hs.hprev hk
@@ -721,72 +797,75 @@ theorem proxStage_postPg (S : Spec n P ψ grad h dom) (hp : ParamOK pr) (hQ : Qu
   · simp only [hk, Nat.cast_zero, mul_zero, zero_mul, zero_add, mul_one] at hpre ⊢
     linarith
   · have hm1 := hmono hk
-    have a1 : (s.k : α) * (ψ (proxStage P pr s).curr.xhat + h (proxStage P pr s).curr.xhat - Fs)
+    have a1 : (s.k : α) * (ψ (proxStage P pr stop s).curr.xhat + h (proxStage P pr stop s).curr.xhat - Fs)
         ≤ (s.k : α) * (ψ s.curr.xhat + h s.curr.xhat - Fs + marginQ pr (ψ s.curr.x)) :=
       mul_le_mul_of_nonneg_left (by linarith) hk0
-    have a2 : (proxStage P pr s).curr.gamma * ((s.k : α) * (ψ s.curr.xhat + h s.curr.xhat - Fs))
+    have a2 : (proxStage P pr stop s).curr.gamma * ((s.k : α) * (ψ s.curr.xhat + h s.curr.xhat - Fs))
         ≤ s.curr.gamma * ((s.k : α) * (ψ s.curr.xhat + h s.curr.xhat - Fs)) :=
       mul_le_mul_of_nonneg_right hγle hs.hv
     nlinarith [mul_le_mul_of_nonneg_left a1 hγ'.le]
 
 theorem nextX_noacc (t tn : α) (x xh p : List α) : fista_nextX true t tn x xh p = xh := rfl
 
-/-- **Main induction, acceleration disabled.** -/
+/-- **Main induction, acceleration disabled** (same form as `mainLoop_allOK`). -/
 theorem mainLoop_allOKPg (S : Spec n P ψ grad h dom) (hp : ParamOK pr) (hQ : QubMax n ψ grad pr.Lmax)
     (T : Target n ψ h dom xs Fs) (hacc : pr.disableAcceleration = true)
-    (stop : Nat → Bool) (oot : Bool) (x0 y Sig errz0 : List α) (D : α) (fuel : ℕ) (s : St α)
+    (stop : Nat → Bool) (hm : StopMono stop) (oot : Bool) (x0 y Sig errz0 : List α) (D : α) (fuel : ℕ)
+    (s : St α)
     (hk : s.k ≤ pr.maxIter) (hfuel : pr.maxIter + 1 ≤ fuel + s.k)
     (hinv : TopInvPg n pr ψ grad h dom xs Fs s (D + marginSumPg pr s.cbs))
     (hok : AllOKPg pr ψ h Fs D s.cbs)
     (hres : (mainLoop P pr stop oot x0 y Sig errz0 fuel s).fuelOut = false) :
-    AllOKPg pr ψ h Fs D (mainLoop P pr stop oot x0 y Sig errz0 fuel s).callbacks.reverse := by
+    AllOKPg pr ψ h Fs D (mainLoop P pr stop oot x0 y Sig errz0 fuel s).callbacks.reverse.tail ∧
+    (stop (finalPoll pr (mainLoop P pr stop oot x0 y Sig errz0 fuel s)) = false →
+      AllOKPg pr ψ h Fs D (mainLoop P pr stop oot x0 y Sig errz0 fuel s).callbacks.reverse) := by
   have hmsum : ∀ (s : St α) (hcons : TopCons n pr ψ grad s) (st : SolverStatus) (e : α),
-      marginSumPg pr (mkCb (headStep P pr stop oot (proxStage P pr s)).1 st e :: s.cbs)
+      marginSumPg pr (mkCb (headStep P pr stop oot (proxStage P pr stop s)).1 st e :: s.cbs)
         = marginSumPg pr s.cbs
-          + 2 * (proxStage P pr s).curr.gamma * ((s.k : α) + 1) * marginQ pr (ψ s.curr.x) ∧
-      cbM pr (mkCb (headStep P pr stop oot (proxStage P pr s)).1 st e) = marginQ pr (ψ s.curr.x) := by
+          + 2 * (proxStage P pr stop s).curr.gamma * ((s.k : α) + 1) * marginQ pr (ψ s.curr.x) ∧
+      cbM pr (mkCb (headStep P pr stop oot (proxStage P pr stop s)).1 st e) = marginQ pr (ψ s.curr.x) := by
     intro s hcons st e
-    obtain ⟨hst, _, _, _, _, hks⟩ := proxStage_stepped (pr := pr) S s hcons
-    have hhc := headStep_curr P pr stop oot (proxStage P pr s)
+    obtain ⟨hst, _, _, _, _, hks⟩ := proxStage_stepped (pr := pr) S stop s hcons
+    have hhc := headStep_curr P pr stop oot (proxStage P pr stop s)
     unfold marginSumPg cbM marginQ mkCb
     simp only [List.map_cons, List.sum_cons, hhc.1, hhc.2.1, hks]
     cases hf : fixedLip pr
     · simp only [Bool.false_eq_true, if_false]
       rw [hst.hpsix hf]; exact ⟨by ring, rfl⟩
     · simp only [if_true]; exact ⟨by ring, trivial⟩
-  refine mainLoop_ind stop oot x0 y Sig errz0
+  refine mainLoop_ind stop hm oot x0 y Sig errz0
     (fun s => TopInvPg n pr ψ grad h dom xs Fs s (D + marginSumPg pr s.cbs)) (AllOKPg pr ψ h Fs D)
     ?_ ?_ fuel s hk hfuel hinv hok hres
-  · intro s hinv hfo hok st e
-    obtain ⟨hpost, hv', _, _, hmono⟩ := proxStage_postPg S hp hQ T s _ hinv hfo
-    obtain ⟨hst, _, _, _, _, hks⟩ := proxStage_stepped (pr := pr) S s hinv.cons
-    have hhc := headStep_curr P pr stop oot (proxStage P pr s)
+  · intro s hinv hfo hns hok st e
+    obtain ⟨hpost, hv', _, _, hmono⟩ := proxStage_postPg S hp hQ T stop s _ hinv hfo hns
+    obtain ⟨hst, _, _, _, _, hks⟩ := proxStage_stepped (pr := pr) S stop s hinv.cons
+    have hhc := headStep_curr P pr stop oot (proxStage P pr stop s)
     refine ⟨?_, ?_, hok⟩
     · rw [(hmsum s hinv.cons st e).1]
       unfold RatePg mkCb
       simp only [hhc.1, hhc.2.1, hks]
       have hk1 : (0 : α) < (s.k : α) + 1 := by positivity
       rw [le_div_iff₀ (by have := hst.hγ; positivity)]
-      nlinarith [(isIP_ipN (α := α) n).nonneg (toFn (proxStage P pr s).curr.xhat - toFn xs)]
+      nlinarith [(isIP_ipN (α := α) n).nonneg (toFn (proxStage P pr stop s).curr.xhat - toFn xs)]
     · intro cb' hcb'
       obtain ⟨hx, hk⟩ := hinv.hhead cb' hcb'
       rw [(hmsum s hinv.cons st e).2]
       have := hmono hk
       simp only [mkCb, hhc.1]
       rw [hx]; exact this
-  · intro s hinv hfo _
-    obtain ⟨hpost, hv', hdom', hxhl', _⟩ := proxStage_postPg S hp hQ T s _ hinv hfo
-    obtain ⟨_, _, _, _, _, hks⟩ := proxStage_stepped (pr := pr) S s hinv.cons
-    have hhc := headStep_curr P pr stop oot (proxStage P pr s)
+  · intro s hinv hfo hns _
+    obtain ⟨hpost, hv', hdom', hxhl', _⟩ := proxStage_postPg S hp hQ T stop s _ hinv hfo hns
+    obtain ⟨_, _, _, _, _, hks⟩ := proxStage_stepped (pr := pr) S stop s hinv.cons
+    have hhc := headStep_curr P pr stop oot (proxStage P pr stop s)
     have hcons' := head_topCons S stop oot s hinv.cons
     obtain ⟨e1, e2, e3, e4, e5⟩ := advance_fields (P := P) (pr := pr)
-      (headStep P pr stop oot (proxStage P pr s)).1 (headStep P pr stop oot (proxStage P pr s)).2.1
+      (headStep P pr stop oot (proxStage P pr stop s)).1 (headStep P pr stop oot (proxStage P pr stop s)).2.1
     rw [hacc, nextX_noacc] at e5
-    have hxlen : (fista_nextX pr.disableAcceleration (headStep P pr stop oot (proxStage P pr s)).1.t
-        (fista_tNext (headStep P pr stop oot (proxStage P pr s)).1.t)
-        (headStep P pr stop oot (proxStage P pr s)).1.curr.x
-        (headStep P pr stop oot (proxStage P pr s)).1.curr.xhat
-        (headStep P pr stop oot (proxStage P pr s)).1.prev).length = n := by
+    have hxlen : (fista_nextX pr.disableAcceleration (headStep P pr stop oot (proxStage P pr stop s)).1.t
+        (fista_tNext (headStep P pr stop oot (proxStage P pr stop s)).1.t)
+        (headStep P pr stop oot (proxStage P pr stop s)).1.curr.x
+        (headStep P pr stop oot (proxStage P pr stop s)).1.curr.xhat
+        (headStep P pr stop oot (proxStage P pr stop s)).1.prev).length = n := by
       rw [hacc, nextX_noacc, hhc.1]; exact hxhl'
     refine { cons := advance_cons S _ _ hcons' hxlen, hprev := ?_, hhead := ?_, hv := ?_, hQ := ?_ }
     · intro _
@@ -798,7 +877,7 @@ theorem mainLoop_allOKPg (S : Spec n P ψ grad h dom) (hp : ParamOK pr) (hQ : Qu
       rw [e3, e2]
       exact ⟨rfl, Nat.succ_ne_zero _⟩
     · rw [e2, e3, hhc.1]; exact mul_nonneg (by positivity) hv'
-    · rw [e2, e3, e4, e5, hhc.1, hhc.2.1, hks, advance_cbs, hhc.2.2.1, (proxStage_k P pr s).2.1,
+    · rw [e2, e3, e4, e5, hhc.1, hhc.2.1, hks, advance_cbs, hhc.2.2.1, (proxStage_k P pr stop s).2.1,
         (hmsum s hinv.cons _ _).1]
       push_cast
       linarith
